@@ -171,8 +171,14 @@ End Core.
 Definition go_ibcr (reward count : Z) : Z :=
   to_int64 (floor (div (mul (of_int64 reward) c025) (of_int64 count))).
 
-(* rewardPerVote := (float64(reward) - float64(reward)*0.25) / float64(totalVotesInRound) *)
+(* rewardPerVote := dposRewardPerVote(float64(reward) - float64(reward)*0.25, totalVotesInRound)
+   = 0 when totalVotesInRound <= 0 (fix of the zero-vote round), else the quotient *)
 Definition go_rpv (reward total : Z) : float :=
+  if total <=? 0 then PrimFloat.zero
+  else div (sub (of_int64 reward) (mul (of_int64 reward) c025)) (of_int64 total).
+
+(* the expression before the fix, kept for the witness in props/C27.v *)
+Definition go_rpv_unguarded (reward total : Z) : float :=
   div (sub (of_int64 reward) (mul (of_int64 reward) c025)) (of_int64 total).
 
 (* Fixed64(math.Floor(float64(votes) * rewardPerVote)) *)
